@@ -38,6 +38,10 @@ case "$1" in
     exec "$BIN/simkv-replay" replay "$f" ;;
   C19)
     build "simkv-$1" -race
+    if [ "${2:-quick}" = "thorough" ] && command -v go1.26.8 >/dev/null 2>&1; then
+      # second Go runtime (other scheduler, map seeds, race runtime): half of the workers use it
+      ( cd "$SIM" && go1.26.8 build -race -o "$BIN/simkv-$1-alt" . ) 2>/dev/null && export SIMKV_ALT_BIN="$BIN/simkv-$1-alt"
+    fi
     exec "$BIN/simkv-$1" check -prop "$1" -tier "${2:-quick}" ;;
   C*)
     build "simkv-$1"
